@@ -9,6 +9,7 @@ pub fn dispatch(op: &str, req: &Value) -> Option<R> {
         "tx_decode" => tx_decode(req),
         "tx_build" => tx_build(req),
         "txin_decode" => txin_decode(req),
+        "txin_hist" => txin_hist(req),
         "txout_decode" => txout_decode(req),
         "varint" => varint(req),
         "sighash" => sighash(req),
@@ -197,6 +198,43 @@ fn txin_decode(req: &Value) -> R {
     Ok(o)
 }
 
+/// One live TxIn (parsed from `hex` or built from `new`), a sequence of setter calls, and the full accessor dump after every step;
+/// after every step the input is also put into an otherwise empty transaction (is_coinbase / bytes at transaction level).
+fn txin_hist(req: &Value) -> R {
+    let mut t = match hx_opt(req, "hex")? {
+        Some(b) => TxIn::from_hex(&hex::encode(&b)).map_err(lib)?,
+        None => mk_txin(get(req, "new")?)?,
+    };
+    let snap = |t: &TxIn| -> R {
+        let mut o = dump_in(0, t);
+        let b = t.to_bytes().map_err(lib)?;
+        o["bytes"] = h(&b);
+        o["reparse_coinbase"] = sub(|| TxIn::from_hex(&hex::encode(&b)), |x| json!(x.is_coinbase()));
+        let mut tx = Transaction::new(1, 0);
+        tx.add_input(t);
+        o["tx_coinbase"] = json!(tx.is_coinbase());
+        o["tx_coinbase_impl"] = json!(tx.is_coinbase_impl());
+        o["tx_bytes"] = sub(|| tx.to_bytes(), |b| h(&b));
+        o["clone_coinbase"] = json!(t.clone().is_coinbase());
+        Ok(o)
+    };
+    let mut out = vec![snap(&t)?];
+    for st_ in arr(req, "steps")? {
+        match st(st_, "op")? {
+            "set_prev_tx_id" => t.set_prev_tx_id(&hx(st_, "txid")?),
+            "set_vout" => t.set_vout(un(st_, "v")? as u32),
+            "set_sequence" => t.set_sequence(un(st_, "v")? as u32),
+            "set_unlocking_script" => t.set_unlocking_script(&mk_script(st_, bo(st_, "coinbase"))?),
+            "set_satoshis" => t.set_satoshis(un(st_, "v")?),
+            "set_locking_script" => t.set_locking_script(&Script::from_bytes(&hx(st_, "script")?).map_err(lib)?),
+            "clone" => t = t.clone(),
+            o => return Err(drv(format!("txin_hist op {}", o))),
+        }
+        out.push(snap(&t)?);
+    }
+    Ok(Value::Array(out))
+}
+
 fn txout_decode(req: &Value) -> R {
     let bytes = hx(req, "hex")?;
     let t = TxOut::from_hex(&hex::encode(&bytes)).map_err(lib)?;
@@ -355,6 +393,15 @@ fn history(req: &Value) -> R {
             }
             "clone" => {
                 live = live.clone();
+            }
+            "clone_from" => {
+                // Clone::clone_from: overwrite the live object in place with another transaction
+                let other = Transaction::from_bytes(&hx(st_, "tx")?).map_err(|e| drv(format!("clone_from parse: {}", e)))?;
+                live.clone_from(&other);
+            }
+            "clone_from_self_copy" => {
+                let other = live.clone();
+                live.clone_from(&other);
             }
             "get_id" => {
                 rec["id"] = json!(live.get_id_hex().map_err(lib)?);
